@@ -106,6 +106,7 @@ Definition reviewed_flag_sites : list (string * string * string * string) := [
   ("Query", "NewVmContextQuery", "call", "queries run in a query context");
   ("executor.call", "nestedView", "++ direct", "checked by Balance");
   ("executor.call", "nestedView", "-- deferred closure", "checked by Balance");
+  ("luaCheckView", "nestedView", "read: return C.int(ctx.nestedView)", "the C side tests luaCheckView(...) > 0 (atom V): the callback must return the counter itself");
   ("luaViewEnd", "nestedView", "-- direct", "bracket callback");
   ("luaViewStart", "nestedView", "++ direct", "bracket callback");
   ("newExecutor", "isView", "assign ce.isView = f.View", "from the ABI of the called function");
